@@ -44,6 +44,8 @@ CHECKS = {
 
 
 def replay(prop, path):
+    import os
+    os.environ["VERIF_REPLAY_PATH"] = os.path.abspath(path)
     with open(path) as f:
         rec = json.load(f)
     from . import replay as rp
